@@ -6,8 +6,11 @@ import random
 from harness.core import enc_str, dec_str
 
 PROPERTY = "C12"
-READY = False
-THEOREMS = []
+READY = True
+THEOREMS = [
+    "C12.marks", "C12.resize_exact", "C12.fit_exact", "C12.width_bounds", "C12.rectangular", "C12.separators",
+    "C12.cell_content", "C12.cell_default", "C12.limits",
+]
 
 
 # ------------------------------------------------------------------ translator
@@ -1025,3 +1028,18 @@ ASSUMPTIONS = ["cell values contain no line break; at least one visible column (
                "values of an enum column are int/str/None: the enum caches are keyed by Python equality, so 1/True/1.0 "
                "in one enum column share one cached cell text (not modelled; reported as an observation)",
                "widths in format strings use ASCII digits (int() also accepts other Unicode decimal digits)"]
+
+LEVEL_TEXT = ("Kernel-checked for all tables of the model (any records, columns, widths, limits, titles, enum types): "
+              "fit_to_width/resize_chunks_list give exactly the asked width and only pad or cut-and-dot (fit_exact, "
+              "resize_exact); every printed line has length sum(widths)+ncols+1 (rectangular); title and record "
+              "lines carry '|' under every '+' of the border, framed lines start and end with '|' (separators); the "
+              "characters between two separators are the fitted text of that record's own field (cell_content); "
+              "negotiated widths lie within min/max in every reachable state (width_bounds); every record appears in "
+              "order, break lines only directly before a record; with limits exactly first/last lines plus one "
+              "skipped line whose number is the count of hidden records (>= 1) and adds up to the total (limits). "
+              "Model = code rests on the differential run (all rendered lines compared exactly).")
+LEVEL_NOTE = ("Trusted: Lean kernel, translator (constants of ak/ppobj.py regenerated on each run: dots, border marks, "
+              "default widths, texts), adapter/wire format in harness/c12.py, sampled correspondence. Colours are not "
+              "modelled (C08-C10). The theorem on limits assumes natural-number limits; negative limits are modelled "
+              "(Python slicing) and tied but not covered by C12.limits.")
+TECHNIQUE = "Lean 4 theorems over an executable model of the table printer + constant translator + differential run"
